@@ -8,10 +8,13 @@ import "time"
 // order of the exchange map inside GetValidPrices, which the scheduler cannot control, so the
 // same schedule can then produce different read results. On code whose reads are atomic every
 // attempt is identical. It returns the matching (or last) result and the number of attempts used.
-func ExecuteUntil(spec RunSpec, schedule []int, kind string, attempts int, opts ExecOpts) (*ExecResult, int, bool) {
+//
+// blocked (parallel to schedule, may be nil) is the recorded outcome of each release: true = the
+// released client was found asleep on a lock taken without a yield point (see listChooser).
+func ExecuteUntil(spec RunSpec, schedule []int, blocked []bool, kind string, attempts int, opts ExecOpts) (*ExecResult, int, bool) {
 	var res *ExecResult
 	for a := 1; a <= attempts; a++ {
-		res = Execute(spec, &listChooser{list: schedule}, opts)
+		res = Execute(spec, &listChooser{list: schedule, blk: blocked}, opts)
 		if res.Internal != nil {
 			return res, a, false
 		}
@@ -24,15 +27,18 @@ func ExecuteUntil(spec RunSpec, schedule []int, kind string, attempts int, opts 
 
 // Minimise shrinks (spec, schedule) while a violation of the same kind persists.
 // Every candidate is executed for real under the list chooser (PRNG-free).
-// It returns the smallest reproducing spec, its effective schedule and the number of attempts.
-func Minimise(spec RunSpec, schedule []int, kind string, budget time.Duration) (RunSpec, []int, int) {
+// It returns the smallest reproducing spec, its effective schedule (with the per-step outcomes) and the number of attempts.
+func Minimise(spec RunSpec, schedule []int, blocked []bool, kind string, budget time.Duration) (RunSpec, []int, []bool, int) {
 	deadline := time.Now().Add(budget)
 	attempts := 0
 	// Is the violation stable under re-execution? (see ExecuteUntil)
 	perTry := 1
 	var h0 [32]byte
 	for i := 0; i < 6; i++ {
-		res := Execute(spec, &listChooser{list: schedule}, ExecOpts{})
+		res := Execute(spec, &listChooser{list: schedule, blk: blocked}, ExecOpts{})
+		if res.Internal != nil {
+			return spec, schedule, blocked, attempts
+		}
 		if i == 0 {
 			h0 = res.LogHash
 		}
@@ -42,41 +48,46 @@ func Minimise(spec RunSpec, schedule []int, kind string, budget time.Duration) (
 		}
 	}
 	var lastOps []int // op index per step of the most recent successful execution
-	try := func(s RunSpec, sch []int) ([]int, bool) {
-		if time.Now().After(deadline) || attempts >= 4000 {
-			return nil, false
+	internal := false // a candidate ended in simulator trouble: stop shrinking, keep what reproduces
+	try := func(s RunSpec, sch schedT) (schedT, bool) {
+		if internal || time.Now().After(deadline) || attempts >= 4000 {
+			return schedT{}, false
 		}
 		attempts++
-		res, _, ok := ExecuteUntil(s, sch, kind, perTry, ExecOpts{})
+		res, _, ok := ExecuteUntil(s, sch.ids, sch.blk, kind, perTry, ExecOpts{})
 		if !ok {
-			return nil, false
+			if res != nil && res.Internal != nil {
+				internal = true
+			}
+			return schedT{}, false
 		}
 		lastOps = res.SchedOp
-		return res.Schedule, true
+		return schedT{ids: res.Schedule, blk: res.BlockedAt}, true
 	}
 	// without removes from the schedule the steps of client c (all its ops if op < 0, else op `op`)
 	// and renumbers the later ops of that client; returns the schedule only (op tags are refreshed
 	// by the next successful execution).
-	without := func(sch, ops []int, c, op int) []int {
-		if len(ops) != len(sch) {
+	without := func(sch schedT, ops []int, c, op int) schedT {
+		if len(ops) != len(sch.ids) {
 			return sch
 		}
-		out := make([]int, 0, len(sch))
-		for i, id := range sch {
+		out := schedT{ids: make([]int, 0, len(sch.ids)), blk: make([]bool, 0, len(sch.ids))}
+		for i, id := range sch.ids {
 			if id == c && (op < 0 || ops[i] == op) {
 				continue
 			}
-			out = append(out, id)
+			out.ids = append(out.ids, id)
+			out.blk = append(out.blk, sch.at(i))
 		}
 		return out
 	}
 
-	cur, curSch := spec.Clone(), append([]int(nil), schedule...)
+	cur, curSch := spec.Clone(), schedT{ids: append([]int(nil), schedule...), blk: append([]bool(nil), blocked...)}
 	var curOps []int
 	if sch, ok := try(cur, curSch); ok {
 		curSch, curOps = sch, lastOps
 	} else {
-		return spec, schedule, attempts
+		return spec, schedule, blocked, attempts
 	}
 
 	for changed := true; changed; {
@@ -153,20 +164,27 @@ func Minimise(spec RunSpec, schedule []int, kind string, budget time.Duration) (
 		}
 
 		// 4. simplify the schedule: first the fully sequential default, then fewer context switches
-		if len(curSch) > 0 {
-			if sch, ok := try(cur, nil); ok && len(sch) <= len(curSch) && !sameInts(sch, curSch) {
+		if len(curSch.ids) > 0 {
+			if sch, ok := try(cur, schedT{}); ok && len(sch.ids) <= len(curSch.ids) && !sameInts(sch.ids, curSch.ids) {
 				curSch, curOps, changed = sch, lastOps, true
 			}
 		}
-		for i := 1; i < len(curSch); i++ {
-			if curSch[i] == curSch[i-1] {
+		for i := 1; i < len(curSch.ids); i++ {
+			if curSch.ids[i] == curSch.ids[i-1] {
 				continue
 			}
 			// try to let the previous client continue instead of switching here
-			cand := append([]int(nil), curSch[:i]...)
-			cand = append(cand, curSch[i-1])
-			cand = append(cand, curSch[i:]...)
-			if sch, ok := try(cur, cand); ok && switches(sch) < switches(curSch) {
+			cand := schedT{ids: append([]int(nil), curSch.ids[:i]...)}
+			for k := 0; k < i; k++ {
+				cand.blk = append(cand.blk, curSch.at(k))
+			}
+			cand.ids = append(cand.ids, curSch.ids[i-1])
+			cand.blk = append(cand.blk, false)
+			cand.ids = append(cand.ids, curSch.ids[i:]...)
+			for k := i; k < len(curSch.ids); k++ {
+				cand.blk = append(cand.blk, curSch.at(k))
+			}
+			if sch, ok := try(cur, cand); ok && switches(sch.ids) < switches(curSch.ids) {
 				curSch, curOps, changed = sch, lastOps, true
 			}
 		}
@@ -183,8 +201,16 @@ func Minimise(spec RunSpec, schedule []int, kind string, budget time.Duration) (
 		cur, curSch, curOps = cand, sch, lastOps
 	}
 	_ = curOps
-	return cur, curSch, attempts
+	return cur, curSch.ids, curSch.blk, attempts
 }
+
+// schedT is a schedule with the recorded outcome of every release.
+type schedT struct {
+	ids []int
+	blk []bool
+}
+
+func (s schedT) at(i int) bool { return i < len(s.blk) && s.blk[i] }
 
 func sameInts(a, b []int) bool {
 	if len(a) != len(b) {
